@@ -51,7 +51,7 @@ def build(tier):
                                         sample={"section body lengths": secs, "payload boundaries (stream octets)": cuts, "stuffing octets": stuff,
                                                 "lost payload": d or None, "bodies": "symbolic"} if len(qs) % 60 == 3 else None))
     # corrupt header: section c carries an impossible header; every cutting into 2-3 payloads
-    for secs in ([[1, 2, 1]] if quick else [[1, 2, 1], [2, 1, 1], [1, 1, 2, 1]]):
+    for secs in ([[1, 2, 1]] if quick else [[1, 2, 1], [2, 1, 1]]):
         total = sum(3 + l for l in secs)
         for c in range(1, len(secs)):
             for ncut in ((1, 2) if quick else (1, 2, 3)):
